@@ -247,6 +247,29 @@ class SymCtx:
             pass
         self._discharge(rec, exact, info, fallback=tol, eq_terms=(la, lb))
 
+    def lemma(self, name: str, hyps, goal, info: Optional[dict] = None, timeout_mult: int = 10):
+        """a stand-alone solver query: goal under EXACTLY the given hypotheses (not the path context).  Used for small real-arithmetic
+        lemmas about terms extracted from the code.  sat/unknown => the obligation is undecided (a lemma has no native replay)."""
+        rec = self.checks.get(name)
+        if rec is None:
+            rec = self.checks[name] = CheckRecord(name)
+        rec.n += 1
+        self.reached['check:' + name] = self.reached.get('check:' + name, 0) + 1
+        self._path_nontrivial = True
+        hy = [boolterm(h) for h in hyps if h is not True]
+        r, m = self._solve(hy, z3.Not(boolterm(goal)), rl_mult=timeout_mult)
+        if r == 'unsat':
+            rec.discharged += 1
+            rec.by['lemma'] = rec.by.get('lemma', 0) + 1
+            if rec.sample is None:
+                rec.sample = {'check': name, 'goal': _short(boolterm(goal)), 'context': 'lemma hypotheses only', 'hyps': len(hy), 'result': 'unsat'}
+            return True
+        rec.undecided += 1
+        if len(self.undecided) < 20:
+            self.undecided.append({'check': name, 'lemma': True, 'result': r, 'goal': _short(boolterm(goal)), 'info': info,
+                                   'model': ({str(d): str(m[d]) for d in m.decls()} if m is not None else None)})
+        return False
+
     # the discharge ladder
     def _solve(self, hyps, goal_neg, rl_mult=1):
         s = z3.Solver()
@@ -668,6 +691,9 @@ class ConcreteCtx:
 
     def fresh(self, base):
         return 12345.678
+
+    def lemma(self, name, hyps, goal, info=None, timeout_mult=10):
+        return True
 
     def check(self, name, cond, info=None):
         if bool(cond):
